@@ -58,6 +58,15 @@ pub fn stark_commit<Layout: LayoutTrait>(
     let oods_coefficients =
         powers_array(Felt::ONE, oods_alpha, (Layout::MASK_SIZE + Layout::CONSTRAINT_DEGREE) as u32);
 
+    // The FRI commitment must hold one commitment per inner layer and exactly the announced number
+    // of last layer coefficients (fri_commit panics otherwise).
+    if Felt::from(unsent_commitment.fri.inner_layers.len()) + Felt::ONE != config.fri.n_layers
+        || Felt::from(unsent_commitment.fri.last_layer_coefficients.len())
+            != Felt::TWO.pow_felt(&config.fri.log_last_layer_degree_bound)
+    {
+        return Err(Error::InvalidFriCommitment);
+    }
+
     // Read fri commitment.
     let fri_commitment = fri_commit(transcript, unsent_commitment.fri.clone(), config.fri.clone());
 
@@ -107,6 +116,9 @@ pub enum Error {
 
     #[error("Invalid number of oods values: expected {expected}, actual {actual}")]
     InvalidOodsLength { expected: usize, actual: usize },
+
+    #[error("Fri commitment does not match the fri configuration")]
+    InvalidFriCommitment,
 }
 
 #[cfg(not(feature = "std"))]
@@ -123,4 +135,7 @@ pub enum Error {
 
     #[error("Invalid number of oods values: expected {expected}, actual {actual}")]
     InvalidOodsLength { expected: usize, actual: usize },
+
+    #[error("Fri commitment does not match the fri configuration")]
+    InvalidFriCommitment,
 }
